@@ -142,6 +142,7 @@ func (c13Engine) Gen(t *rapid.T, tier string) any {
 		Conn:       simrt.SimConnCfg{Chunk: rapid.SampledFrom([]int{16, 512, 4096, 65536}).Draw(t, "ws.chunk")},
 		StallAfter: rapid.SampledFrom([]int{0, 100, 3000}).Draw(t, "ws.stallafter"),
 		Idle:       rapid.IntRange(0, 2).Draw(t, "ws.idle") == 0,
+		BadInput:   rapid.IntRange(0, 1).Draw(t, "ws.badinput") == 0,
 	}
 	c.Sched = GenSchedule(t, 3000)
 	if c.Sched.SelMode == 0 {
